@@ -1,4 +1,5 @@
 import Cardutil.Lemmas.IsoDict
+import Cardutil.Lemmas.IsoPds
 import Cardutil.Gen.Config
 import Cardutil.Gen.Codecs
 import Cardutil.Gen.PyTables
@@ -168,6 +169,57 @@ theorem C01_roundtrip_packaged (pd : Text → Option DateTime) (c : Codec)
     · exact envOK_cp037 pd
   obtain ⟨bs, d, h1, h2, h3, h4, _⟩ := C01_roundtrip henv Gen.bitConfig hexBitmap m ds hds hl hmti hnopds hwf
   exact ⟨bs, d, h1, h2, h3, h4⟩
+
+/-- C01 (PDS sub-elements): a message that supplies `PDSxxxx` keys — distinct 4-digit tags, values
+    of 0..992 encodable characters, total within the carriers' capacity, not mixed with directly
+    supplied carriers (`PdsOK`) — round-trips every data element AND every PDS sub-element, wherever
+    the carrier boundaries fall.  (The carrier elements themselves appear in the result as derived
+    entries.) -/
+theorem C01_roundtrip_pds {env : Env} (henv : EnvOK env) (cfg : Config) (hexBitmap : Bool) (m : Dict)
+    (ents : List (Text × Text)) (hp : PdsOK env cfg m ents)
+    (ds : List Nat) (hds : ∀ d ∈ ds, d < 10) (hl : ds.length = 4)
+    (hmti : Dict.get m .mti = some (.str (digitText ds)))
+    (hwf : ElemsWF env cfg m allBits) :
+    ∃ bs d, encode env cfg hexBitmap m = .ok bs ∧ decode env cfg hexBitmap bs = .ok d ∧
+      Dict.get d .mti = some (.str (digitText ds)) ∧
+      (∀ bit ∈ allBits, ∀ v, Dict.get m (.de bit) = some v → present v = true →
+        ∃ f exp sub, cfg.get bit = some f ∧ WFField env bit f v exp sub ∧ Dict.get d (.de bit) = some exp) ∧
+      (∀ e ∈ ents, Dict.get d (.pds e.1) = some (.str e.2)) :=
+  pds_roundtrip henv cfg hexBitmap m ents hp ds hds hl hmti hwf
+
+/-- the message's PDS entries are exactly `ents` up to order (the encoder sorts them) -/
+theorem C01_pds_entries_perm {env : Env} {cfg : Config} {m : Dict} {ents : List (Text × Text)}
+    (hp : PdsOK env cfg m ents) : (ents.map (fun e => (e.1, Val.str e.2))).Perm (pdsEntriesOf m) := by
+  rw [← hp.entries]; exact sortPds_perm _
+
+/-! ### the packaged configuration satisfies the carrier hypotheses (re-checked on every run) -/
+
+theorem packaged_carriers : pdsCarriers Gen.bitConfig = [48, 62, 123, 124, 125] := by decide
+
+theorem packaged_carriers_ok : ∀ c ∈ pdsCarriers Gen.bitConfig, c ∈ allBits ∧
+    ∃ f, Gen.bitConfig.get c = some f ∧ f.proc = .pds ∧ f.pytype = .str ∧ f.prefixLen = 3 := by
+  rw [packaged_carriers]
+  intro c hc
+  simp only [List.mem_cons, List.mem_nil_iff, or_false] at hc
+  rcases hc with rfl | rfl | rfl | rfl | rfl <;> exact ⟨by decide, _, rfl, rfl, rfl, rfl⟩
+
+theorem packaged_carriers_nodup : (pdsCarriers Gen.bitConfig).Nodup := by
+  rw [packaged_carriers]; decide
+
+theorem packaged_all_carriers : ∀ b f, Gen.bitConfig.get b = some f → f.proc = .pds → b ∈ pdsCarriers Gen.bitConfig := by
+  intro b f hget hproc
+  unfold Config.get at hget
+  cases hfind : Gen.bitConfig.find? (·.1 == b) with
+  | none => simp [hfind] at hget
+  | some e =>
+    simp [hfind] at hget
+    have hmem := List.mem_of_find?_eq_some hfind
+    have hkey : e.1 = b := by simpa using List.find?_some hfind
+    have hall : Gen.bitConfig.all (fun e => e.2.proc != .pds || (pdsCarriers Gen.bitConfig).contains e.1) = true := by
+      decide
+    have := List.all_eq_true.mp hall e hmem
+    rw [hget, hproc, hkey] at this
+    simpa using this
 
 -- sanity tests (evaluated): the documentation's example in both bitmap renderings, and DE4 = 0
 #guard
